@@ -15,6 +15,17 @@ Oracle, evaluated at every quiescent point (no task inside an operation) and at 
     select([fd],[],[],0) readable  <=>  len(in_buffer)+len(in_stderr_buffer) > 0 or eof_received or closed
 The user-level ``Channel.close()`` is not generated: it destroys the descriptor, after which the
 statement says nothing.
+
+Round 3 dimensions:
+  * history BEFORE the first fileno() ("pre", sequential - the descriptor does not exist yet): 0-5 of peer DATA /
+    EXTENDED_DATA, recv(n), recv_stderr(n), set_combine_stderr, EOF, CLOSE through the same handlers / calls, or 1-2
+    (message, read | combine) cycles: the buffer state fileno() starts from was reached by filling AND draining
+    (partly, completely, repeatedly), not only by filling.  Classes: pre-fileno-history[-with-reads],
+    stream-filled-and-drained-before-fileno.
+  * message sizes include 0 (empty CHANNEL_DATA / EXTENDED_DATA string, legal per RFC 4254 5.2), before and after
+    fileno().  Class zero-length-feed.  On the unchanged tree this shows a genuine defect (open finding
+    "readable-with-nothing-pending|buffer-event-set-after-zero-length-feed", replays/C24/zero-length-data-marks-descriptor-readable.json,
+    fixes/C24-empty-feed-marks-descriptor-readable.patch); it is NOT excluded from the generator.
 """
 import select
 import socket
@@ -29,11 +40,12 @@ PROPERTY = "C24"
 LEVEL = "exploration"
 THOROUGH_WORKERS = 16
 RULE = (
-    "start state (0-3 stdout bytes, 0-3 stderr bytes, peer EOF?, peer CLOSE?, combine_stderr?) x one transport task (1-4 of peer "
-    "DATA / EXTENDED_DATA / EOF / CLOSE via the real handlers) + 1-2 application tasks (1-3 of recv(n), recv_stderr(n), set_combine_stderr) on a real Channel "
+    "start state (0-3 stdout bytes, 0-3 stderr bytes, peer EOF?, peer CLOSE?, combine_stderr?) x history before the first fileno() (none | 0-5 of peer DATA/EXTENDED_DATA "
+    "of 0-3 bytes, recv(n), recv_stderr(n), set_combine_stderr, EOF, CLOSE | 1-2 (message, read|combine) cycles) x one transport task (1-4 of peer "
+    "DATA / EXTENDED_DATA of 0-3 bytes (zero-length messages included) / EOF / CLOSE via the real handlers) + 1-2 application tasks (1-3 of recv(n), recv_stderr(n), set_combine_stderr) on a real Channel "
     "(fake transport, real os.pipe/select) under the deterministic scheduler with line-level switch points in pipe.py and "
     "buffered_pipe.py; schedules from a generated preemption list (<=3 anywhere + <=2 placed at the n-th line inside pipe.py set/clear) and, in thorough, all schedules with <=k preemptions "
-    "(k=3 lock-level, k=2 line-level) of 80 small transport||application programs; non-trivial = a task switch happened "
+    "(k=3 lock-level, k=2 line-level) of 100 small transport||application programs; non-trivial = a task switch happened "
     "inside OrPipe.set/clear or PosixPipe.set/clear/set_forever; distinct by SHA-1 of (start, program, schedule)"
 )
 
@@ -42,11 +54,14 @@ APP_OPS = ("recv", "recv_err", "combine")
 
 # peer messages are all delivered by ONE thread (the transport thread); applications read
 # (and switch combine_stderr) from other threads
+# message sizes include 0: a CHANNEL_DATA / CHANNEL_EXTENDED_DATA whose string is empty is a legal message (RFC 4254 5.2) and
+# holds no unread data
+feed_size_st = st.sampled_from([0, 1, 1, 2, 2, 3, 3])
 peer_op_st = st.one_of(
-    st.tuples(st.just("out"), st.integers(1, 3)),
-    st.tuples(st.just("err"), st.integers(1, 3)),
-    st.tuples(st.just("out"), st.integers(1, 3)),
-    st.tuples(st.just("err"), st.integers(1, 3)),
+    st.tuples(st.just("out"), feed_size_st),
+    st.tuples(st.just("err"), feed_size_st),
+    st.tuples(st.just("out"), feed_size_st).map(lambda v: v),
+    st.tuples(st.just("err"), feed_size_st).map(lambda v: v),
     st.tuples(st.just("eof")),
     st.tuples(st.just("pclose")),
 )
@@ -57,6 +72,20 @@ app_op_st = st.one_of(
     st.tuples(st.just("recv_err"), st.integers(1, 4)),
     st.tuples(st.just("combine")),
 )
+
+# history of the channel BEFORE the first fileno() (sequential: the descriptor does not exist yet): feeds, reads - a stream may
+# have been filled and drained, partly or completely, any number of times -, combine, EOF, CLOSE
+_pre_feed = st.one_of(st.tuples(st.just("out"), feed_size_st), st.tuples(st.just("err"), feed_size_st))
+_pre_read = st.one_of(st.tuples(st.just("recv"), st.integers(1, 4)), st.tuples(st.just("recv_err"), st.integers(1, 4)))
+pre_op_st = st.one_of(
+    _pre_feed, _pre_feed.map(lambda v: v), _pre_feed.map(lambda v: (v)),
+    _pre_read, _pre_read.map(lambda v: v), _pre_read.map(lambda v: (v)),
+    st.just(("combine",)),  # set_combine_stderr(True): moves what stderr holds into stdout
+    st.sampled_from([("eof",), ("pclose",)]),
+)
+# second shape: 1-2 x (message, read | combine) - fill / drain cycles
+_pre_cycles = st.lists(st.tuples(_pre_feed, st.one_of(_pre_read, _pre_read.map(lambda v: v), st.just(("combine",)))), min_size=1, max_size=2).map(lambda l: [op for pair in l for op in pair])
+pre_st = st.one_of(st.just([]), st.lists(pre_op_st, max_size=5), _pre_cycles)
 
 start_st = st.fixed_dictionaries(
     {
@@ -71,6 +100,7 @@ start_st = st.fixed_dictionaries(
 case_st = st.fixed_dictionaries(
     {
         "start": start_st,
+        "pre": pre_st,
         "tasks": st.builds(
             lambda peer, apps: [peer] + apps,
             st.lists(peer_op_st, min_size=1, max_size=4),
@@ -101,9 +131,11 @@ class Bench:
         self.chan.settimeout(0.0)
         self.fd = None
         self.pipe = None
-        self.checks = []  # (where, readable, n_out, n_err, eof, closed, flags)
+        self.checks = []  # (where, readable, n_out, n_err, eof, closed, flags, zero-length feeds delivered so far)
+        self.zero_feeds = 0
+        self.pre_classes = set()
 
-    def start(self, st_):
+    def start(self, st_, pre=()):
         ft, chan = self.ft, self.chan
         if st_["combine"]:
             chan.set_combine_stderr(True)
@@ -115,6 +147,21 @@ class Bench:
             ft.deliver(CB.MSG_CHANNEL_EOF, 1)
         if st_["closed"]:
             ft.deliver(CB.MSG_CHANNEL_CLOSE, 1)
+        # the generated history before the first fileno(), through the same handlers / public calls as afterwards
+        fed = {"out": 0, "err": 0}
+        counter = [7]
+        for op in pre:
+            op = tuple(op)
+            self.do(op, counter)
+            if op[0] in fed:
+                fed[op[0]] += op[1]
+        if pre:
+            self.pre_classes.add("pre-fileno-history")
+            if any(tuple(op)[0] in ("recv", "recv_err") for op in pre):
+                self.pre_classes.add("pre-fileno-history-with-reads")
+            for k, ready in (("out", chan.recv_ready()), ("err", chan.recv_stderr_ready())):
+                if fed[k] and not ready and not st_[k] and not (st_["combine"] or any(tuple(op)[0] == "combine" for op in pre)):
+                    self.pre_classes.add("stream-filled-and-drained-before-fileno")
         self.fd = chan.fileno()
         self.pipe = chan._pipe
         if self.pipe is None or self.pipe.fileno() != self.fd:
@@ -138,7 +185,7 @@ class Bench:
         n_out = len(chan.in_buffer._buffer)
         n_err = len(chan.in_stderr_buffer._buffer)
         flags = "p1=%d,p2=%d,pipe=%d,forever=%d" % (bool(self.p1._set), bool(self.p2._set), bool(self.pipe._set), bool(self.pipe._forever))
-        self.checks.append((where, readable, n_out, n_err, bool(chan.eof_received), bool(chan.closed), flags))
+        self.checks.append((where, readable, n_out, n_err, bool(chan.eof_received), bool(chan.closed), flags, self.zero_feeds))
 
     def do(self, op, counter):
         ft, chan = self.ft, self.chan
@@ -146,10 +193,14 @@ class Bench:
         if k == "out":
             b = bytes((counter[0] + i) % 256 for i in range(op[1]))
             counter[0] += op[1]
+            if not b:
+                self.zero_feeds += 1
             ft.deliver(CB.MSG_CHANNEL_DATA, 1, b)
         elif k == "err":
             b = bytes((counter[0] + i) % 256 for i in range(op[1]))
             counter[0] += op[1]
+            if not b:
+                self.zero_feeds += 1
             ft.deliver(CB.MSG_CHANNEL_EXTENDED_DATA, 1, 1, b)
         elif k == "recv":
             try:
@@ -221,7 +272,7 @@ def judge(bench, res):
     crit = res.switched_in(in_critical, preempt_only=False)
     # a violation without any task switch inside the pipe operations is not a race between them
     seq = "" if crit else ":no-switch-inside-pipe-ops"
-    for where, readable, n_out, n_err, eof, closed, flags in bench.checks:
+    for where, readable, n_out, n_err, eof, closed, flags, zero_feeds in bench.checks:
         pending = []
         if n_out:
             pending.append("stdout-data")
@@ -238,10 +289,16 @@ def judge(bench, res):
             if not (pp or forever):
                 layer = "posixpipe-flag-clear-but-fd-readable"
             elif p1 or p2:
+                # a zero-length DATA / EXTENDED_DATA message was delivered earlier in this case: own bucket (it carries no data)
                 layer = "buffer-event-set-without-data"
             else:
                 layer = "orpipe-halves-clear-but-pipe-set"
-            viol.append(("readable-with-nothing-pending", layer + seq, "%s: descriptor readable, buffers empty, no eof/close (%s)" % (where, flags)))
+            if layer == "buffer-event-set-without-data" and zero_feeds:
+                # a zero-length DATA / EXTENDED_DATA message was delivered earlier in this case: own bucket, and - not being a
+                # race - the same one whatever the schedule did
+                viol.append(("readable-with-nothing-pending", "buffer-event-set-after-zero-length-feed", "%s: descriptor readable, buffers empty, no eof/close, %d zero-length DATA/EXTENDED_DATA message(s) delivered before (%s)" % (where, zero_feeds, flags)))
+            else:
+                viol.append(("readable-with-nothing-pending", layer + seq, "%s: descriptor readable, buffers empty, no eof/close (%s)" % (where, flags)))
         elif should and not readable:
             if pp or forever:
                 layer = "posixpipe-flag-set-but-fd-empty"
@@ -270,6 +327,9 @@ def judge(bench, res):
     if res.switched_in(lambda tag: tag[0] == "line" and tag[1] == "buffered_pipe.py", preempt_only=False):
         classes.add("switch-inside-buffered_pipe")
     classes.add("quiescent-checks=%d" % min(len(bench.checks), 4))
+    classes.update(bench.pre_classes)
+    if bench.zero_feeds:
+        classes.add("zero-length-feed")
     return viol, classes, crit > 0
 
 
@@ -277,7 +337,7 @@ def execute(ctx, case, strategy=None, trace="lines", extra_classes=()):
     strat = strategy if strategy is not None else S.strategy_from_case(case["sched"], in_critical)
     b = Bench(strat, trace=case.get("trace", trace))
     try:
-        b.start(case["start"])
+        b.start(case["start"], case.get("pre") or ())
         res = b.run([[tuple(op) for op in t] for t in case["tasks"]])
         viol, classes, nontrivial = judge(b, res)
     finally:
@@ -300,6 +360,7 @@ def execute(ctx, case, strategy=None, trace="lines", extra_classes=()):
 DFS_PEER = [[("out", 1)], [("err", 1)], [("eof",)], [("err", 1), ("out", 1)], [("out", 1), ("err", 1)]]
 DFS_APP = [[("recv", 4)], [("recv_err", 4)], [("combine",)], [("recv", 4), ("recv_err", 4)]]
 DFS_STARTS = [
+    {"out": 0, "err": 0, "eof": False, "closed": False, "combine": False, "pre": [("out", 1), ("recv", 4)]},  # filled and drained before fileno()
     {"out": 0, "err": 0, "eof": False, "closed": False, "combine": False},
     {"out": 1, "err": 0, "eof": False, "closed": False, "combine": False},
     {"out": 0, "err": 1, "eof": False, "closed": False, "combine": False},
@@ -312,7 +373,7 @@ def dfs_programs():
     for st_ in DFS_STARTS:
         for a in DFS_PEER:
             for b in DFS_APP:
-                progs.append({"start": st_, "tasks": [a, b]})
+                progs.append({"start": {k: v for k, v in st_.items() if k != "pre"}, "pre": [list(o) for o in st_.get("pre", ())], "tasks": [a, b]})
     return progs
 
 
@@ -324,7 +385,7 @@ def run_dfs(ctx, programs, k, trace, limit, label):
             break
 
         def one(strategy, prog=prog):
-            case = {"start": prog["start"], "tasks": prog["tasks"], "sched": None, "trace": trace}
+            case = {"start": prog["start"], "pre": prog.get("pre", []), "tasks": prog["tasks"], "sched": None, "trace": trace}
             execute(ctx, case, strategy=strategy, trace=trace, extra_classes=("dfs-" + label,))
 
         gen = S.enumerate_schedules(one, k, limit=limit)
@@ -352,7 +413,7 @@ def run(ctx):
         ok1 = run_dfs(ctx, mine, 3, "locks", 500000, "k3-locks")
         ok2 = run_dfs(ctx, mine, 2, "lines", 500000, "k2-lines")
         ctx.exhaustive = bool(ok1 and ok2)
-        ctx.note("dfs_domain", "%d programs (4 start states x 5 transport-thread programs x 4 application programs of 1-2 ops): all schedules with <=3 preemptions at lock-level switch points and <=2 preemptions at line-level switch points" % len(progs))
+        ctx.note("dfs_domain", "%d programs (5 start states, one of them filled and drained before fileno(), x 5 transport-thread programs x 4 application programs of 1-2 ops): all schedules with <=3 preemptions at lock-level switch points and <=2 preemptions at line-level switch points" % len(progs))
     else:
         step = max(1, len(progs) // 4)
         run_dfs(ctx, progs[(ctx.seed % step) :: step][:4], 1, "lines", 300, "k1-lines")
